@@ -30,7 +30,7 @@ def TimeOk (g : Bytes → Time → Fld) : Prop :=
 
 /-- `q` is the value `p`, possibly under a named slice type (`dictObject(val)`): same identity, text, elements -/
 def SameValue : Payload → Payload → Prop
-  | .box a, .box b => a.tok = b.tok ∧ a.text = b.text ∧ a.elems = b.elems ∧ a.refl = b.refl
+  | .box a, .box b => a.id = b.id ∧ a.tok = b.tok ∧ a.text = b.text ∧ a.elems = b.elems ∧ a.refl = b.refl
   | p, q => q = p
 
 @[simp] theorem sameValue_refl (p : Payload) : SameValue p p := by
@@ -92,7 +92,7 @@ def ElemsOk (etype : String) : (k : VK) → List k.T → List ACall → Prop
     | none => False
     | some (ms, astext, skipNil) =>
       ∃ m ∈ ms, cs = ((if skipNil then xs.filter (fun x => x != Payload.nil) else xs).map fun x =>
-        ⟨m, if astext then .str (textOf x) else .tok x.tok⟩)
+        ⟨m, if astext then .str (textOf x) else .tok x.id⟩)
 
 /-- a slice constructor delivers one `AddArray(key, m)` whose marshaler emits the elements -/
 def SliceOk (etype : String) (k : VK) (g : Bytes → List k.T → Fld) : Prop :=
@@ -202,9 +202,9 @@ end ZapVerif.Field
 namespace ZapVerif.Field
 set_option linter.unusedSimpArgs false
 
-theorem all_nil (P : Ctor → Prop) : ∀ c ∈ ([] : List Ctor), P c := by intro c h; cases h
+theorem all_nil {α : Type} (P : α → Prop) : ∀ c ∈ ([] : List α), P c := by intro c h; cases h
 
-theorem all_cons (P : Ctor → Prop) {a : Ctor} {l : List Ctor} (h : P a) (t : ∀ c ∈ l, P c) : ∀ c ∈ a :: l, P c := by
+theorem all_cons {α : Type} (P : α → Prop) {a : α} {l : List α} (h : P a) (t : ∀ c ∈ l, P c) : ∀ c ∈ a :: l, P c := by
   intro c hc
   rcases List.mem_cons.mp hc with rfl | h'
   · exact h
